@@ -308,7 +308,11 @@ def run_onestep(spec, rec, Integration, Numerics):
         old = Integration.use_delj_trick
         Integration.use_delj_trick = delj
         try:
-            ok, out = rec.noraise("driver-returns", lambda: f(phi0.copy(), xx_in, T, **kw2), site=site, tags=tags)
+            # every fifth case runs the same step on a shifted time axis (from initial_t = 3T to 4T): with parameters that do not
+            # depend on time the result is the same
+            t0 = 3.0 * T if ci % 5 == 2 else 0.0
+            tags["initial_t"] = t0 != 0
+            ok, out = rec.noraise("driver-returns", lambda: f(phi0.copy(), xx_in, t0 + T, initial_t=t0, **kw2), site=site, tags=tags)
         finally:
             Integration.use_delj_trick = old
         if not ok:
